@@ -177,6 +177,9 @@ def build(desc):
                     m.aux_data["alignment"].data[blk] = bd["align"]
                 if bd.get("func") and bd["kind"] == "code":
                     func_blocks.setdefault(bd["func"], set()).add(blk)
+                    if bd.get("func2"):
+                        # a block listed by two functions (a shared tail)
+                        func_blocks.setdefault(bd["func2"], set()).add(blk)
                     if bd.get("entry"):
                         func_entries.setdefault(bd["func"], set()).add(blk)
                 for k, v in (bd.get("blockaux") or {}).items():
